@@ -152,9 +152,17 @@ def draw_curve_sets(rng, n_freq, n_az, equal_counts=True, nmin=2, nmax=12):
     return sets
 
 
-def draw_azimuths(rng, n_az):
+def draw_azimuths(rng, n_az, ends=False):
     if n_az == 1:
         return [float(rng.choice([0.0, 20.0, 90.0, 135.5]))]
+    if ends and rng.random() < 0.12:
+        # both ends of the legal interval (0 and 180 degrees name one direction but are two azimuths of the result), or one
+        # azimuth listed twice (two surveys of the same direction)
+        if rng.random() < 0.6:
+            return [float(x) for x in np.linspace(0.0, 180.0, n_az)]
+        vals = sorted(rng.sample([x * 5.0 for x in range(0, 36)], n_az - 1))
+        j = rng.randrange(len(vals))
+        return [float(v) for v in vals[:j + 1] + vals[j:]]
     step = 180.0 / n_az
     if rng.random() < 0.5:
         return [round(i * step, 3) for i in range(n_az)]
